@@ -19,6 +19,10 @@ for name in names:
     r = subprocess.run(["./check", pid, "quick"], cwd=root, env=dict(os.environ, VERIF_REPO=clone), stdout=subprocess.PIPE, stderr=subprocess.STDOUT, text=True)
     shutil.rmtree(clone, ignore_errors=True)
     viol = [l for l in r.stdout.split("\n") if l.startswith("VIOLATION")]
+    if not viol and meta.get("neutralised_by"):
+        rows.append((name, pid, "passes: the change no longer violates the property on the current tree (neutralised by a later repair, see meta.json)", ""))
+        print(name, pid, "neutralised", flush=True)
+        continue
     kind = "missed" if not viol else ("no-failing-input-found" if "no-failing-input-found" in viol[0] else "failing input")
     summ = [l for l in r.stdout.split("\n") if l.startswith("[check]")]
     rows.append((name, pid, kind, summ[0][8:] if summ else ""))
